@@ -470,8 +470,28 @@ def d3_matrices(ctx, idx):
                 r.violation('IdentityMatrixMultiples.generate_sample', 'no array returned', where)
                 continue
             draw = ('meth', ('cfg', 'sampler'), 'gen_sample', (), ())
+            val, casts = ai.specialise(idx, fi, p.value, {}), []
+            while True:
+                if val[0] == 'meth' and val[2] == 'astype' and len(val[3]) == 1:
+                    casts.append(val[3][0])
+                    val = val[1]
+                elif val[0] == 'call' and val[1] in ('numpy.real', 'float', 'numpy.float64', 'numpy.abs') and len(val[2]) == 1:
+                    casts.append(('ext', val[1]))
+                    val = val[2][0]
+                else:
+                    break
+            narrowing = [c for c in casts if c != ('ext', 'complex')]
+            if narrowing and ai.mentions(val, draw):
+                c = narrowing[0]
+                why = ("for IdentityMatrixMultiples the option 'complex' is documented as ignored (default False) - the field is that of the "
+                       "scalar sampler -" if ai.mentions(c, ('cfg', 'complex')) else 'this')
+                r.violation('IdentityMatrixMultiples.generate_sample', 'the product of the drawn scalar and the identity is cast with `%s` before it '
+                            'is returned: %s so a complex scalar drawn from a ComplexRectangle / ComplexSector sampler loses its imaginary part; '
+                            'an identity multiple must be scalar * eye(dimension) with the scalar\'s own type' % (ai.show(c), why), where,
+                            expected='scaling * np.eye(dimension)', found=ai.show(p.value)[:110])
+                continue
             try:
-                v = ai.AlgEval(('none',)).ev(rewrite(p.value, {draw: ('sym', 'scalar')}))
+                v = ai.AlgEval(('none',), field_flag=False).ev(rewrite(val, {draw: ('sym', 'scalar')}))
             except Unsupported as e:
                 r.undecided('IdentityMatrixMultiples.generate_sample', str(e), where)
                 continue
@@ -662,7 +682,7 @@ def d4_enum(ctx, idx):
         if bad_use:
             raise AnalysisError('constructor tests the dimension by `%s`: four representatives are not exhaustive' % bad_use)
         seen_reasons = {}
-        too_lax, too_strict, wrong_class = [], [], []
+        too_lax, too_strict, wrong_class, refused_ok = [], [], [], []
         total = 0
         for sym, cx, tl, det, dim in itertools.product(doms['symmetry'], doms['complex'], doms['traceless'], doms['determinant'], DIMS):
             asg = {'symmetry': sym, 'complex': cx, 'traceless': tl, 'determinant': det, 'dimension': dim}
@@ -679,6 +699,7 @@ def d4_enum(ctx, idx):
                     too_strict.append((asg, p))
                 else:
                     seen_reasons.setdefault(why, p)
+                    refused_ok.append((asg, p))
             elif p.kind == 'fall':
                 if why is not None:
                     too_lax.append((asg, why))
@@ -695,9 +716,19 @@ def d4_enum(ctx, idx):
                 continue
             shown.add(why)
             n = sum(1 for a, w in too_lax if w == why)
+            hint = ''
+            lax_here = [a for a, w in too_lax if w == why]
+            still = [a_ for (a_, q_) in refused_ok if spec_rejects(a_['symmetry'], a_['complex'], a_['traceless'], a_['determinant'], a_['dimension']) == why]
+            if still:
+                for key in ('dimension', 'symmetry', 'complex', 'traceless', 'determinant'):
+                    va, vs = {a_[key] for a_ in lax_here}, {a_[key] for a_ in still}
+                    if not (va & vs):
+                        hint = ' (it is still refused for %s in %s, but accepted for %s in %s: the refusal now also depends on %s)' % (
+                            key, sorted(vs, key=str), key, sorted(va, key=str), key)
+                        break
             r_tab.violation('SquareMatrices.__init__: %s' % why, 'the constructor accepts %s (%d of the enumerated combinations): %s, so '
                             'gen_sample cannot return a matrix with the requested properties (assertion error, endless retries ending in '
-                            'ValueError, or a sample violating a constraint)' % (fmt(asg), n, why), fi.loc, expected='ConfigError')
+                            'ValueError, or a sample violating a constraint)%s' % (fmt(asg), n, why, hint), fi.loc, expected='ConfigError')
         for asg, p in wrong_class[:1]:
             r_tab.violation('SquareMatrices.__init__: error class', '%s is refused with %s instead of ConfigError' % (fmt(asg), p.exc),
                             lib.loc(fi, p.stmt), expected='ConfigError', found=p.exc)
@@ -960,7 +991,7 @@ def d3_det_zero(ctx, idx):
                     r.check(ok, construct, 'array[k, k] = 0 with k = randint(dimension)', 'the zeroed position `%s` is not a random diagonal index '
                             'below dimension' % ai.show(i), where, expected='randint(dimension)', found=ai.show(i))
                 continue
-            empties = [s_ for s_ in ai.subterms(p.value) if s_[0] == 'call' and s_[1] == 'numpy.random.randint' and len(s_[2]) == 1
+            empties = [s_ for s_ in ai.subterms(ai.specialise(idx, fi, p.value, {})) if s_[0] == 'call' and s_[1] == 'numpy.random.randint' and len(s_[2]) == 1
                        and s_[2][0][0] == 'call' and s_[2][0][1] == 'len']
             conj = [c for g in p.conds for c in ai.t_conjuncts(g)]
             bad_empty = [e for e in empties if not any(c in (('cmp', '!=', e[2][0], ai.num(0)), ('cmp', '!=', ai.num(0), e[2][0]),
@@ -976,7 +1007,9 @@ def d3_det_zero(ctx, idx):
                 continue
             # array - eye(dimension) * lambda
             construct = 'make_det_zero: shift under %s' % guards
-            v = p.value
+            v = ai.specialise(idx, fi, p.value, {})
+            if v[0] in ('sub', 'add') and v[2][0] == 'meth' and v[2][2] == 'astype' and len(v[2][3]) == 1 and v[2][3][0] in ai.FIELD_CASTS:
+                v = (v[0], v[1], v[2][1])          # cast by the sampler's own complex flag: the working array already has that field
             if v[0] not in ('sub', 'add') or v[1] != base or v[2][0] != 'mul':
                 r.undecided(construct, 'value `%s` is not array -/+ eye * eigenvalue' % ai.show(v)[:90], where)
                 continue
